@@ -141,6 +141,9 @@ class Group:
         if not isinstance(spec, XSpec):
             spec = XSpec(spec)
         self.allocate_id(spec)
+        if spec.id in self:
+            # refuse before a process is started that nobody would own
+            raise ValueError(f"already have gateway with id {spec.id!r}")
         if spec.execmodel is None:
             spec.execmodel = self.remote_execmodel.backend
         if spec.via:
